@@ -28,6 +28,8 @@ SKELETONS = ['[1_2]', '[1,2_', '[1_', '{1_2}', '{1:2_3:4}', '{1:2_', 'a(1_2)', '
              '(1_2)', '(1+2_', '[1,2]_3', '1_2_3', '[_]_', '{_:_}', 'a(_,_)', '1 _ 2 _', '"a"_"b"', "[1,_,2]", '{1:_,2:3}',
              '1;_;2', '(_)_', '[[1]_[2]]', 'a(a(1)_2)', '1?(2_3):4', '-_1', '1+_', '!_',
              # a string literal (any one-character content) where a separator or closer is required
+             # a string literal with multi-byte content directly followed by a stray token
+             "('é'_)", "['ü'_]", "a('ñ'_)", "{1:'é'_}", "x='日本'_", "'é'_'é'",
              "[1'_'2]", 'a(1"_"2)', "{1'_'2}", "{1:2'_'3:4}", "1?2'_'3", "[1'_'", "a(1'_'", "{1:2'_'", "('_'1)", "[1,2'_'"]
 
 
@@ -122,6 +124,43 @@ def harness(it, px, params):
         px.finding({'key': 'C05|accepted-non-sentence|%s' % ' '.join(k if k in ('num', 'name', 'str', 'bool') else t for k, t in seq),
                     'desc': 'parse_expression accepts `%s`, which is not a sentence of the grammar (%s)' % (wit.decode('utf-8', 'replace'), e),
                     'witness': wit.hex(), 'kind': 'accept'})
+    # independent of the implementation's tokenizer: the documented lexical rules (reference tokenizer of C10) followed by
+    # the reference recogniser must accept the input too
+    from harness import c10
+    rt = c10.concrete_ref(wit, None)
+    rseq = None
+    if rt != 'err':
+        kmap = {'Operator': 'op', 'Delim': 'delim', 'Comma': ',', 'Semicolon': ';'}
+        fixed = {'Number': ('num', '1'), 'Bool': ('bool', 'true'), 'String': ('str', 's'), 'Reference': ('name', 'n'), 'Function': ('name', 'n')}
+        rseq = [fixed[k] if k in fixed else (kmap[k], wit[a:b].decode('utf-8', 'replace')) for k, a, b in rt]
+        try:
+            rf.ref_parse(rseq, rf.BUILTIN_INFIX, any_prefix=True)
+            rok = True
+        except rf.RefError as e:
+            rok = False
+            why = str(e)
+    else:
+        rok = False
+        why = 'the lexical rules reject it'
+    if not rok and rec.get('recognised'):
+        px.finding({'key': 'C05|accepted-non-sentence-lexical|%s' % (' '.join(k if k in ('num', 'name', 'str', 'bool') else t for k, t in rseq) if rseq else 'untokenizable'),
+                    'desc': 'parse_expression accepts `%s`, which is not a sentence of the grammar (%s)' % (wit.decode('utf-8', 'replace'), why),
+                    'witness': wit.hex(), 'kind': 'accept'})
+    # no input character may be dropped: everything outside the token spans must be blank
+    pos = 0
+    dropped = []
+    for (a, b) in sorted(seen):
+        if a > pos:
+            dropped.append((pos, a))
+        pos = max(pos, b)
+    if pos < len(wit):
+        dropped.append((pos, len(wit)))
+    dropped = [(a, b) for (a, b) in dropped if wit[a:b].decode('utf-8', 'replace').strip() != '']
+    if dropped:
+        px.finding({'key': 'C05|accepted-dropping-input|%s' % ' '.join(k if k in ('num', 'name', 'str', 'bool') else t for k, t in seq),
+                    'desc': 'parse_expression accepts `%s` although no token covers %s' % (
+                        wit.decode('utf-8', 'replace'), [wit[a:b].decode('utf-8', 'replace') for a, b in dropped]),
+                    'witness': wit.hex(), 'kind': 'accept-drop', 'dropped': dropped})
     return rec
 
 
@@ -154,15 +193,24 @@ def run(ctx):
     for key, fs in sorted(groups.items()):
         f = sorted(fs, key=lambda f: (len(f['witness']), f['witness']))[0]
         sc = [{'op': 'parse', 'hex': f['witness'], 'want': ['ast']}]
-        od = ctx.native(sc, 'dev')[-1]
+        if f['kind'] == 'accept-drop':
+            # the same input with the uncovered characters blanked out: an identical tree shows they were ignored
+            w = bytearray(bytes.fromhex(f['witness']))
+            for a, b in f['dropped']:
+                w[a:b] = b' ' * (b - a)
+            sc = [{'op': 'parse', 'hex': bytes(w).hex(), 'want': ['ast']}] + sc
+        odl = ctx.native(sc, 'dev')
+        od = odl[-1]
         orl = ctx.native(sc, 'release')[-1]
         validated += 1
         if f['kind'] == 'fault':
             confirmed = od.get('kind') in ('panic', 'crash', 'timeout') or orl.get('kind') in ('panic', 'crash', 'timeout')
+        elif f['kind'] == 'accept-drop':
+            confirmed = od.get('kind') == 'ok' and odl[0].get('kind') == 'ok' and od.get('ast') == odl[0].get('ast')
         else:
             confirmed = od.get('kind') == 'ok'
         findings.append({'key': key, 'desc': f['desc'], 'confirmed': confirmed, 'scenario': sc,
-                         'expect': {'step': 0, 'kind': 'must not be ok' if f['kind'] == 'accept' else 'must not panic'},
+                         'expect': {'step': len(sc) - 1, 'kind': 'must not panic' if f['kind'] == 'fault' else 'must not be ok'},
                          'witness_text': repr(bytes.fromhex(f['witness']).decode('utf-8', 'replace')),
                          'native': {'dev': od, 'release': orl}, 'id': sid([key, f['witness']]), 'count': len(fs)})
     if kres.get('ok'):
